@@ -321,6 +321,35 @@ func checkLoopAccept(c *core.Ctx, fn *ssa.Function, subject string, want an.Set,
 		}
 	}
 	if def == nil {
+		// the loop lives in a method / helper that is handed the ranged container and whose refusal
+		// makes fn refuse (`if !reqFilterTags(fil.Tags).valid() { return false }`): read there
+		if i, j := strings.Index(subject, "("), strings.Index(subject, ")"); i > 0 && j > i {
+			container := subject[i+1 : j]
+			for _, ci := range calls(fn) {
+				call, isCall := ci.(*ssa.Call)
+				if !isCall {
+					continue
+				}
+				hf := an.StaticCallee(&call.Call)
+				if !an.PrivateHelper(hf) || len(hf.Params) != len(call.Call.Args) || hf.Signature.Results().Len() != 1 {
+					continue
+				}
+				for k, a := range call.Call.Args {
+					if an.PathOf(a) != container {
+						continue
+					}
+					if forced, _ := impliesResult(c, fn, call, false); !forced {
+						continue
+					}
+					inner := paramPath(hf, k)
+					if k == 0 && hf.Signature.Recv() != nil {
+						inner = an.PathOf(hf.Params[0])
+					}
+					checkLoopAccept(c, hf, subject[:i+1]+inner+subject[j:], want, what)
+					return
+				}
+			}
+		}
 		c.Unknown(nil, fname(c, fn), "domain("+what+")", c.P.Pos(fn.Pos()), "subject "+subject+" not found")
 		return
 	}
